@@ -48,6 +48,7 @@ struct HSel : Harness {
     int n = (int)(wr.chance(0.7) ? wr.range(3, 25) : wr.range(26, 80)), pp = (int)wr.range(1, 6);
     int k = alg == A_KMEANS ? (int)wr.range(1, std::min(6, n)) : (int)wr.range(1, alg == A_MDC && n > 30 ? 30 : n);
     if (alg == A_KMPP) k = (int)wr.range(1, std::min(6, n));
+    if (wr.chance(0.04)) { n = (int)wr.range(100, 400); k = (int)wr.range(1, alg == A_KMEANS || alg == A_KMPP ? 6 : 12); p.seti("large", 1); }  // a size threshold in the library must not hide a path
     p.seti("alg", alg); p.seti("objects", n); p.seti("cols", pp); p.seti("k", k); p.seti("metric", (int)wr.below(3)); p.seti("init", (int)wr.below(4));
     p.seti("nthreads", (int)wr.range(1, 8)); p.setu("rng_seed", 1 + wr.below(1000000)); p.setu("data.seed", wr.next() >> 4);
     // data layout (swarm): 0 one Gaussian cloud, 1 separated blobs, 2 some objects duplicated, 3 cloud far from the origin; unit of the data 1e-3..1e3
@@ -71,6 +72,7 @@ struct HSel : Harness {
       else if (layout == 3) { for (int j = 0; j < c.p; j++) { double off = lr.uniform(-200, 200); for (auto &r : c.X) r[j] += off; } }
       if (unit != 1.0) for (auto &r : c.X) for (double &v : r) v *= unit;
       o.counters["layout." + std::to_string(layout)]++;
+      if (p.geti("large", 0)) o.counters["probe.large_operand"]++;
       if (unit < 0.1) o.counters["probe.small_unit"]++; else if (unit > 10) o.counters["probe.large_unit"]++;
     }
     char cfg[200]; snprintf(cfg, sizeof cfg, "%s n=%d p=%d k=%d metric=%d init=%d threads=%d", alg_name[c.alg], c.n, c.p, c.k, c.metric, c.init, c.nthreads);
